@@ -396,6 +396,27 @@ func TestCheck(t *testing.T) {
 		})
 		r.Exhaustive(fmt.Sprintf("payload 0..%d x every mtu 1..size+40 x %d block layouts", maxPayload, nLayouts))
 
+		// bundles with a large extension block that is NOT replicated (the first fragment has much less room than the
+		// others): every mtu, so that the later fragments' payload crosses each length-header width boundary
+		r.Group("sweep-bigblock", r.Pick(12, 60), func(i int, rng *report.Rand) {
+			src := model.Dtn("src", "a")
+			m := model.Bundle{Version: 7, CRC: 2, Dst: model.Dtn("dst", "in"), Src: src, Rpt: src, Time: now - 1000, Seq: uint64(i), Lifetime: 86_400_000}
+			big := 40 + rng.Intn(300)
+			m.Blocks = []model.Block{
+				{Type: model.THopCount, Num: 2, Flags: model.BReplicate, CRC: 2, Limit: 64, Count: 1},
+				{Type: 240, Num: 3, CRC: uint64(rng.Intn(3)), Data: rng.Bytes(big)},
+			}
+			if rng.Bool() {
+				m.Blocks[1] = model.Block{Type: model.TPrevNode, Num: 3, CRC: 2, Node: model.Dtn("n", string(bytes.Repeat([]byte("x"), big)))}
+			}
+			m.Blocks = append(m.Blocks, model.Block{Type: model.TPayload, Num: 1, CRC: 2, Data: rng.Bytes([]int{300, 700, 1200}[rng.Intn(3)])})
+			rb := m.ToBpv7()
+			x, _ := serialise(&rb)
+			for mtu := 100; mtu <= len(x)+2; mtu++ {
+				c.one(m, mtu, rng)
+			}
+		})
+
 		// random bundles x random mtu, including the payload-length-header width changes
 		r.Group("random", r.Pick(3000, 60000), func(i int, rng *report.Rand) {
 			o := model.GenOpts{NowMs: now, NoFragment: true, NoMultiMaps: true, MaxPayload: 3000}
